@@ -19,6 +19,7 @@ LO = z3.Function("lo", z3.IntSort(), z3.IntSort())  # lo(i) = i & (i+1)
 BOR = z3.Function("bor", z3.IntSort(), z3.IntSort(), z3.IntSort())
 BAND = z3.Function("band", z3.IntSort(), z3.IntSort(), z3.IntSort())
 SHL = z3.Function("shl", z3.IntSort(), z3.IntSort(), z3.IntSort())
+POW2 = z3.Function("pow2", z3.IntSort(), z3.IntSort())  # 1 << k (k >= 0)
 
 _ufuns: dict[str, object] = {}
 
@@ -241,6 +242,12 @@ class Eval:
                     raise Unsupported("bit op on non-int")
                 self.ob("bitrange", z3.And(x.z >= 0), n)
                 return V(INT, (UP if isinstance(op, ast.BitOr) else LO)(x.z))
+        if isinstance(op, ast.LShift) and isinstance(n.left, ast.Constant) and n.left.value == 1:
+            k = self.expr(n.right)
+            if k.t != INT:
+                raise Unsupported("shift by non-int")
+            self.ob("shift-nonneg", k.z >= 0, n)  # negative shift counts raise ValueError
+            return V(INT, POW2(k.z))
         a = self.expr(n.left)
         b = self.expr(n.right)
         # list repetition / concatenation
